@@ -9,7 +9,10 @@
 
 #include <bitset>
 #include <deque>
+#include <forward_list>
+#include <iterator>
 #include <list>
+#include <sstream>
 #include <map>
 #include <memory>
 #include <optional>
@@ -522,6 +525,68 @@ Result runSL(const Case& cs) {
 }
 
 // ================================================================================================
+// Iterator categories for everything that takes an iterator pair (round five): the same value sequence offered
+// as random access / contiguous / bidirectional / forward range and as two genuine single-pass input ranges
+// (std::istream_iterator, and a generator iterator whose copies share one source, so that a second traversal
+// of [first,last) - std::distance followed by std::copy, say - finds the source used up).
+// ================================================================================================
+struct SinglePassSource {
+  std::vector<int> data;
+  std::size_t next = 0;       // index of the next value handed out; shared by all copies of the iterator
+  long reads = 0;
+};
+class SinglePassIt {
+  // like std::istream_iterator: the current value is cached in the iterator, ++ fetches from the shared source
+  std::shared_ptr<SinglePassSource> src_;
+  int cur_ = 0;
+  bool live_ = false;
+  void fetch() {
+    if (src_ && src_->next < src_->data.size()) { cur_ = src_->data[src_->next++]; ++src_->reads; live_ = true; }
+    else live_ = false;
+  }
+ public:
+  using iterator_category = std::input_iterator_tag;
+  using value_type = int;
+  using difference_type = std::ptrdiff_t;
+  using pointer = const int*;
+  using reference = const int&;
+  SinglePassIt() = default;                                             // end of range
+  explicit SinglePassIt(std::shared_ptr<SinglePassSource> s) : src_(std::move(s)) { fetch(); }
+  reference operator*() const { return cur_; }
+  pointer operator->() const { return &cur_; }
+  SinglePassIt& operator++() { fetch(); return *this; }
+  SinglePassIt operator++(int) { SinglePassIt old(*this); fetch(); return old; }
+  friend bool operator==(const SinglePassIt& a, const SinglePassIt& b) { return a.live_ == b.live_ && (!a.live_ || a.src_ == b.src_); }
+  friend bool operator!=(const SinglePassIt& a, const SinglePassIt& b) { return !(a == b); }
+};
+inline const std::vector<std::string>& rangeKinds() {
+  static const std::vector<std::string> k = {"ra", "ptr", "bidi", "fwd", "in", "is"};
+  return k;
+}
+// construct a container C from the values `li` offered as an iterator pair of the category named by `kind`
+template <class C>
+C fromRange(const std::string& kind, const std::vector<int>& li) {
+  if (kind == "ra") return C(li.begin(), li.end());
+  if (kind == "ptr") { const int* p = li.data(); return C(p, p + li.size()); }
+  if (kind == "bidi") { std::list<int> l(li.begin(), li.end()); return C(l.begin(), l.end()); }
+  if (kind == "fwd") { std::forward_list<int> l(li.begin(), li.end()); return C(l.cbegin(), l.cend()); }
+  if (kind == "in") {
+    auto src = std::make_shared<SinglePassSource>();
+    src->data = li;
+    return C(SinglePassIt(src), SinglePassIt());
+  }
+  // "is": std::istream_iterator over the decimal text of the values
+  std::ostringstream txt;
+  for (int x : li) txt << x << ' ';
+  std::istringstream in(txt.str());
+  return C(std::istream_iterator<int>(in), std::istream_iterator<int>());
+}
+inline bool isRangeKind(const std::string& k) {
+  for (auto& x : rangeKinds()) if (x == k) return true;
+  return false;
+}
+
+// ================================================================================================
 // ReservedVector
 // ================================================================================================
 template <int n>
@@ -619,6 +684,15 @@ Result runRV(const Case& cs) {
         else s.v = RV(li.begin(), li.end());
         s.sh.assign(li.begin(), li.end());
         stat("rv_init");
+      } else if (op == "initr" && w.size() == 3 && isRangeKind(w[1]) && isList(w[2]) && (long)parseList(w[2]).size() <= n) {
+        // the iterator-pair constructor with an iterator of the named category (the parameter is an *InputIt*)
+        ok = true;
+        auto l = parseList(w[2]);
+        std::vector<int> li(l.begin(), l.end());
+        s.v = fromRange<RV>(w[1], li);
+        s.sh.assign(li.begin(), li.end());
+        stat("rv_initr_" + w[1]);
+        if (li.size() >= 2 && (w[1] == "in" || w[1] == "is")) stat("rv_initr_singlepass_2plus");
       }
     }
     if (!ok) { out.obs.push_back("skip"); stat("rv_skip"); continue; }
